@@ -57,6 +57,9 @@ pub fn parse_case<C: serde::de::DeserializeOwned>(case: &Value) -> Result<C, Vec
 }
 
 /// Entry point of crash-isolated worker processes (`vcheck --worker ...`).
-pub fn worker_main(_args: &[String]) -> i32 {
-    2
+pub fn worker_main(args: &[String]) -> i32 {
+    match args.first().map(|s| s.as_str()) {
+        Some("stress") => crate::stress::worker(&args[1..]),
+        _ => 2,
+    }
 }
